@@ -147,13 +147,19 @@ def check_string(ctx, case):
         det = {"impl_tree": E.text_of(root), "reference_ast": repr(ast)[:400], "witness": witness, "leaves_equal": leaf_ok, "explained_by_right_nested_muldiv_chain": explained}
         kindb = "value" if witness is not None else "operand-sequence"
         return ctx.fail((kindb, "muldiv-chain" if explained else "other"), case, det)
-    # informational: structure identical to the reference reading (with the implementation's right-nested * / convention)?
+    # "no operand is re-associated": the shape of the tree is the shape the grammar prescribes. The only tolerated other
+    # shape is the one known finding F-C03-1 describes (explicit * and / chains nested to the right; where that changes the
+    # value it was reported above): a tree that is neither is a new re-association (e.g. implicit factor runs folded from
+    # the right), even when + and * make the exact values agree
     try:
         from .schemas import tree_to_ast
 
-        if tree_to_ast(root) != RP.parse(s, muldiv_right=True):
-            ctx.count("structure_differs_from_reference(values agree)")
-    except Exception:
+        shape = tree_to_ast(root)
+        if shape != ast and shape != RP.parse(s, muldiv_right=True):
+            return ctx.fail(("re-associated",), case, {"impl_tree": repr(shape)[:300], "grammar_reading": repr(ast)[:300]})
+        if shape != ast:
+            ctx.count("shape_is_the_right_nested_muldiv_reading(F-C03-1, values agree)")
+    except RP.Reject:
         ctx.count("structure_comparison_failed")
     if [x[2] for x in leaves_i if x[0] == "c"] != [x[2] for x in leaves_r if x[0] == "c"]:
         return ctx.fail(("literal-coercion",), case, {"impl": [x for x in leaves_i if x[0] == "c"], "reference": [x for x in leaves_r if x[0] == "c"]})
